@@ -338,6 +338,129 @@ def o7(h, st):
     h.done()
 
 
+# O7b nested control against the defining recursion -------------------------------------------------------------------------
+
+def _G(*a, **k):
+    from tangelo.linq import Gate
+    return Gate(*a, **k)
+
+
+def nested_circuits():
+    """measurement-controlled programs (dictionary control) with nesting, gates trailing an inner CMEASURE inside a selected branch, non-commuting trailing
+    groups, and top-level MEASURE / CMEASURE gates remaining after a nested one. (name, gate list, width)"""
+    G = _G
+    inner_x0 = {"0": [], "1": [G("X", 0)]}
+    return [
+        ("inner_last", [G("H", 0), G("CMEASURE", 0, parameter={"0": [G("H", 1), G("CMEASURE", 1, parameter=inner_x0)], "1": [G("X", 1)]}), G("Z", 0)], 2),
+        ("trailing_after_inner", [G("H", 0), G("CMEASURE", 0, parameter={"0": [], "1": [G("H", 1), G("CMEASURE", 1, parameter=inner_x0), G("CNOT", 1, control=0)]})], 2),
+        ("trailing_both_levels", [G("H", 0), G("CMEASURE", 0, parameter={"0": [G("X", 1)], "1": [G("H", 1), G("CMEASURE", 1, parameter={"0": [G("H", 0)], "1": [G("X", 0), G("H", 0)]}),
+                                                                                     G("CNOT", 1, control=0), G("RY", 0, parameter=0.7)]}), G("H", 1)], 2),
+        ("measure_after_nested", [G("X", 0), G("CMEASURE", 0, parameter={"0": [], "1": [G("H", 1), G("CMEASURE", 1, parameter={"0": [], "1": []}), G("X", 2)]}),
+                                  G("MEASURE", 2), G("H", 1)], 3),
+        ("cmeasure_after_nested", [G("H", 0), G("CMEASURE", 0, parameter={"0": [G("X", 2)], "1": [G("H", 1), G("CMEASURE", 1, parameter={"0": [G("X", 2)], "1": []}), G("H", 2)]}),
+                                   G("CMEASURE", 2, parameter={"0": [], "1": [G("X", 0)]}), G("H", 0), G("MEASURE", 1), G("X", 1)], 3),
+        ("three_levels", [G("H", 0), G("CMEASURE", 0, parameter={"0": [], "1": [G("H", 1), G("CMEASURE", 1, parameter={"0": [G("X", 1)], "1": [G("H", 2), G("CMEASURE", 2, parameter={
+            "0": [G("X", 0)], "1": [G("H", 0)]}), G("CNOT", 0, control=2)]}), G("CNOT", 2, control=1)]}), G("MEASURE", 0)], 3),
+    ]
+
+
+def selected_gates(gates, outcomes):
+    """the defining recursion of measurement control: a (C)MEASURE consumes the next outcome; the gates of the selected branch follow it immediately, in order,
+    before anything that comes after the CMEASURE at its own level. Returns [(name, target, control, parameter-or-outcome)]"""
+    out = []
+    for g in gates:
+        if g.name == "MEASURE":
+            if not outcomes:
+                raise IndexError
+            out.append(("MEASURE", list(g.target), None, outcomes.pop(0)))
+        elif g.name == "CMEASURE":
+            if not outcomes:
+                raise IndexError
+            b = outcomes.pop(0)
+            out.append(("CMEASURE", list(g.target), None, b))
+            out += selected_gates(g.parameter[b], outcomes)
+        else:
+            out.append((g.name, list(g.target), g.control, g.parameter))
+    return out
+
+
+def outcome_strings(gates):
+    """all complete outcome strings of the program"""
+    res = []
+
+    def rec(prefix):
+        try:
+            o = list(prefix)
+            selected_gates(gates, o)
+        except IndexError:
+            rec(prefix + "0")
+            rec(prefix + "1")
+            return
+        res.append(prefix)
+    rec("")
+    return res
+
+
+def o7b_structures(tier):
+    sts = []
+    for k, (name, gates, n) in enumerate(nested_circuits()):
+        for s in outcome_strings(gates):
+            sts.append({"circuit": name, "k": k, "desired": s})
+    return sts
+
+
+@contract("C10", "O7b.cmeasure.nested.defining_recursion", level="S", structures=o7b_structures,
+          targets=[(TGC, "CirqSimulator.simulate_circuit"), (BK, "Backend.simulate"), (C, "generate_applied_gates"), (C, "get_unitary_circuit_pieces"), (C, "Circuit.applied_gates")])
+def o7b(h, st):
+    """nested measurement control (up to three levels, gates trailing an inner CMEASURE, further top-level measurements afterwards), every complete outcome string:
+    the applied gates are exactly, and in the order of, the defining recursion (branch gates directly after their CMEASURE); generate_applied_gates returns the same
+    list; the recorded probability and the final state are those of the Born-rule evolution of that gate sequence; zero-probability strings are refused"""
+    import numpy as np
+    from tangelo.linq import get_backend
+    name, gates, n = nested_circuits()[st["k"]]
+    d = st["desired"]
+    exp = selected_gates(gates, list(d))
+    # Born-rule reference on the expected sequence
+    psi = np.zeros(2 ** n, dtype=complex)
+    psi[0] = 1
+    prob = 1.0
+    for (gn, tg, ct, par) in exp:
+        if gn in ("MEASURE", "CMEASURE"):
+            q, bit = tg[0], int(par)
+            for i in range(2 ** n):
+                if ((i >> (n - 1 - q)) & 1) != bit:
+                    psi[i] = 0
+            p = float(np.linalg.norm(psi) ** 2)
+            prob *= p
+            if p < 1e-12:
+                break
+            psi = psi / np.sqrt(p)
+        else:
+            psi = qsem.to_numpy(qsem.unitary([mk_gate(gn, tg, ct, par)], n, exact=False)[0], n) @ psi
+    c = mk_circuit(gates, n)
+    sim = get_backend("cirq")
+    if prob < 1e-12:
+        e = h.raises(lambda: h.call(BK, "Backend.simulate", sim, c, True, None, d), ValueError)
+        h.check("outcome string of zero probability is refused", e is not None)
+        h.done()
+        return
+    freqs, sv = h.call(BK, "Backend.simulate", sim, c, True, None, d)
+    applied = h.getattr(c, "applied_gates")
+
+    def sig(gs):
+        return [(g.name, list(g.target), g.control, g.parameter) for g in gs]
+    h.check("applied gates == defining recursion (selected branch gates directly after their CMEASURE)", sig(applied) == exp, detail=f"{sig(applied)} vs {exp}")
+    gen = h.call(C, "generate_applied_gates", c, d)
+    h.check("generate_applied_gates == defining recursion", sig(gen) == exp, detail=f"{sig(gen)} vs {exp}")
+    probs = h.getattr(c, "success_probabilities")
+    h.check("recorded branch probability", d in probs and abs(probs[d] - prob) < 1e-9, detail=f"{probs} vs {prob}")
+    sv = np.asarray(sv)
+    h.check("final state is the Born-rule state of the branch", abs(abs(np.vdot(psi, sv)) - 1) < 1e-7 and abs(np.linalg.norm(sv) - 1) < 1e-7, detail=f"{sv} vs {psi}")
+    expf = {format(i, f"0{n}b"): abs(psi[i]) ** 2 for i in range(2 ** n) if abs(psi[i]) ** 2 > 1e-10}
+    h.check("final distribution of the branch", set(freqs) == set(expf) and all(abs(freqs[k] - expf[k]) < 1e-7 for k in expf), detail=f"{freqs} vs {expf}")
+    h.done()
+
+
 @contract("C10", "O8.sampled.support", level="B", structures=lambda tier: [{"prep": p, "save": s} for p in range(len(PREPS)) for s in (False, True)],
           native_samples=lambda st, rnd, tier: [{"seed": rnd.randint(0, 10 ** 6)}],
           targets=[(BK, "Backend.simulate"), (TGC, "CirqSimulator.simulate_circuit")])
